@@ -55,3 +55,36 @@ REG.fn(B, "bellman_ford", prop="C11", ret="Result[opaque]", raises_ok=True,
               2: LoopSpec(index="q", invariants=COMMON),
               3: LoopSpec(index="q3", invariants=COMMON + [
                   "forall(k, implies(0 <= k < q3, not " + RELAX.format("k") + "), trig=edges[k])"])})
+
+# ------------------------------------------------------------------ dijkstra: returned paths are real paths
+D = "solvor/dijkstra.py"
+REG.ghostfn("Edge", ["U<S>", "U<S>", "real"], "bool")  # Edge(u, v, w): neighbors(u) offers (v, w)
+REG.callback("dnbr", ["U<S>"], "list[tuple[U<S>,real]]", pure=False,
+             post="forall(i, implies(0 <= i < len(result), Edge(a0, result[i][0], result[i][1]) and result[i][1] >= 0), trig=result[i])")
+REG.callback("isgoal", ["U<S>"], "bool", pure=False)
+DI = [
+    "has(g, start)", "get(g, start) == 0", "not has(parent, start)",
+    "forall(v, implies(has(g, v), get(g, v) >= 0), sorts={'v': 'U<S>'}, trig=has(g, v))",
+    # every labelled node except the source has a parent; a parent is a closed, labelled node whose offered edge
+    # (ghost weight pw[v]) explains the label exactly
+    "forall(v, implies(has(g, v) and v != start, has(parent, v)), sorts={'v': 'U<S>'}, trig=has(g, v))",
+    "forall(v, implies(has(parent, v), has(g, v) and has(g, get(parent, v)) and has(closed, get(parent, v)) and Edge(get(parent, v), v, pw[v]) and get(g, v) == get(g, get(parent, v)) + pw[v]), sorts={'v': 'U<S>'}, trig=has(parent, v))",
+    "forall(v, implies(has(closed, v), has(g, v)), sorts={'v': 'U<S>'}, trig=has(closed, v))",
+    "forall(j, implies(0 <= j < len(heap), has(g, heap[j][2])), trig=heap[j])",
+]
+REG.fn(D, "dijkstra", prop="C11", ret="Result[opt[list[U<S>]]]",
+       types={"goal": "opaque", "neighbors": "fun:dnbr", "is_goal": "fun:isgoal", "max_cost": "opt[real]",
+              "pw": "map[U<S>,real]", "path": "list[U<S>]"},
+       ghost_before=[("g: dict[S, float] = {start: 0.0}", "pw", "lam(v, 0.0, sort='U<S>')")],
+       ghost_after=[("parent[neighbor] = current", "pw", "store(pw, neighbor, edge_cost)")],
+       ensures=[
+           "implies(result.status != 1, is_none(result.solution))",
+           "implies(result.status == 1, not is_none(result.solution) and len(val(result.solution)) >= 1)",
+           # a returned path starts at the source, every step is an edge offered by `neighbors`, and the labels
+           # grow by exactly the edge weights from 0 to the reported distance (so the weights sum to it)
+           "implies(result.status == 1, val(result.solution)[0] == start and get(g, start) == 0)",
+           "implies(result.status == 1, result.objective == get(g, val(result.solution)[len(val(result.solution)) - 1]))",
+           "implies(result.status == 1, forall(i, implies(0 <= i < len(val(result.solution)) - 1, Edge(val(result.solution)[i], val(result.solution)[i + 1], pw[val(result.solution)[i + 1]]) and get(g, val(result.solution)[i + 1]) == get(g, val(result.solution)[i]) + pw[val(result.solution)[i + 1]]), trig=val(result.solution)[i]))",
+       ],
+       loops={1: LoopSpec(invariants=DI),
+              2: LoopSpec(invariants=DI + ["has(g, current)", "has(closed, current)"])})
